@@ -202,6 +202,32 @@ def ctxmove():
     }
 
 
+def ctxshare():
+    """contexts are lists of caller-owned dicts that the program keeps and reuses: [BASE, EXTRA], [BASE], [EXTRA] - entries for the
+    same namespace with different keys"""
+    base = {'kind': 'dict', 'data': {}, 'for_namespaces': {'n': {'pa': 5}}}
+    extra = {'kind': 'dict', 'data': {}, 'for_namespaces': {'n': {'pb': 9}}}
+    glob = {'kind': 'dict', 'data': {'pb': 3}}
+    return {
+        'name': 'ctxshare',
+        '_shared_ctx_objects': True,
+        'tasks': {
+            'A': {'params': [P('pa', default=0), P('pb', default=0)], 'inputs': [], 'data': 'json'},
+            'B': {'params': [], 'inputs': [by_name('n::a')], 'data': 'json'},
+        },
+        'configs': {'root': {'medium': 'json', 'tasks': ['B'], 'values': {}, 'uses': [{'config': 'leaf', 'as': 'n'}]},
+                    'leaf': {'medium': 'json', 'tasks': ['A'], 'values': {'pa': 1}}},
+        'root': 'root',
+        'context': {'kind': 'list', 'items': [base]},
+        'variants': {
+            'vbase': [],
+            'vboth': [[['context'], {'kind': 'list', 'items': [base, extra]}]],
+            'vextra': [[['context'], {'kind': 'list', 'items': [extra]}]],
+            'vglob': [[['context'], {'kind': 'list', 'items': [glob, base]}]],
+        },
+    }
+
+
 def types_line():
     """one task per storable data class in a line"""
     kinds = ['json', 'numpy', 'pandas', 'series', 'generator', 'generator_lazy', 'list_of_numpy', 'dir', 'continues', 'json_list', 'inmemory', 'json']
@@ -277,4 +303,4 @@ def namemode(second='exp_big', ckind='dir'):
     }
 
 
-ALL = {f.__name__: f for f in (namemode, parts_ext, optns, longval, chain3, diamond, mount2, mount2p, uses2, parts, optpat, ctxmove, types_line)}
+ALL = {f.__name__: f for f in (ctxshare, namemode, parts_ext, optns, longval, chain3, diamond, mount2, mount2p, uses2, parts, optpat, ctxmove, types_line)}
